@@ -145,6 +145,19 @@ Proof.
 Qed.
 Print Assumptions c11_by_position.
 
+(* MIXED tagging (some top-level field untagged - including tagged fields next to an untagged embedded
+   struct, and untagged outer fields around a tagged embedded struct) is mapped by position like the
+   untagged case (c11_by_position needs only all_tagged fs = false). In strict mode with exactly as many
+   columns as flattened fields and a nil result, no field is left zero unless its cell was zero. *)
+Theorem c11_strict_exact_fills_every_field : forall fs cols row d0 d,
+  all_tagged fs = false -> List.length cols = List.length (unwrap_fields fs) ->
+  List.length cols = List.length row -> List.length d0 = List.length (unwrap_fields fs) ->
+  forallb cell_nonzero row = true ->
+  fill_struct fs true cols row d0 = (d, Ok tt) ->
+  filled_from 0 (unwrap_fields fs) d = true.
+Proof. exact strict_exact_fills. Qed.
+Print Assumptions c11_strict_exact_fills_every_field.
+
 (* no spurious errors: a row whose named columns all fit their fields (by name) / whose first cells fit
    the first fields (by position) IS copied, in partial mode and in strict mode with enough columns *)
 Theorem c11_copyable_is_copied : forall fs strict cols row d0,
@@ -266,6 +279,18 @@ Proof.
     apply Permutation_cons_append. }
   apply Permutation_refl.
 Qed.
+
+(* mixed tagging: tagged outer fields with an untagged embedded struct, untagged outer with tagged embedded *)
+Definition ex_mixed1 : list field := [FLeaf "a" false KInt; FEmb "" false [FLeaf "" false KStr]; FLeaf "c" false KInt].
+Definition ex_mixed2 : list field := [FLeaf "" false KInt; FEmb "" true [FLeaf "x" false KStr; FLeaf "y" false KInt]].
+Example c11_mixed_example :
+  all_tagged ex_mixed1 = false /\ all_tagged ex_mixed2 = false /\
+  (* column names are ignored: by position *)
+  fill_struct ex_mixed1 true ["c"; "a"; "zz"] [CInt 1; CStr "s"; CInt 3] (init_dest (unwrap_fields ex_mixed1)) =
+    ([Some (LInt 1); Some (LStr "s"); Some (LInt 3)], Ok tt) /\
+  fill_struct ex_mixed2 true ["y"; "x"; "q"] [CInt 1; CStr "s"; CInt 3] (init_dest (unwrap_fields ex_mixed2)) =
+    ([Some (LInt 1); Some (LStr "s"); Some (LInt 3)], Ok tt).
+Proof. repeat split. Qed.
 
 (* embedded structs are flattened, pointers allocated; fewer columns in partial mode leave the tail alone *)
 Definition ex_untagged : list field :=
